@@ -34,6 +34,15 @@ type Env struct {
 	oldLocal func(name string) (SVal, bool)
 	// when elaborating a pure-function body in probe mode
 	probing map[string]bool
+	// ensures of a callee with `callback` clauses: function parameter -> symbol of its result function
+	fnsyms map[string]*fnSym
+}
+
+type fnSym struct {
+	name string
+	args []*Sort
+	ret  *Sort
+	typ  types.Type
 }
 
 type elabErr struct{ msg string }
@@ -627,6 +636,24 @@ func (e *Env) call(x SCall) SVal {
 		}
 	}
 	switch x.Fn {
+	case "fnres":
+		// fnres(fn, a1, ..., an): what the function-typed parameter fn returned for these arguments (see `callback`)
+		if len(x.Args) < 1 {
+			efail("fnres(fn, args...)")
+		}
+		id, ok := x.Args[0].(SIdent)
+		if !ok || e.fnsyms == nil || e.fnsyms[id.Name] == nil {
+			efail("fnres: first argument must be a function parameter with a `callback` clause")
+		}
+		fs := e.fnsyms[id.Name]
+		if len(x.Args)-1 != len(fs.args) {
+			efail("fnres(%s, ...): %d argument(s) expected", id.Name, len(fs.args))
+		}
+		var as []*Term
+		for i, a := range x.Args[1:] {
+			as = append(as, coerce(e.elab(a).T, fs.args[i]))
+		}
+		return SVal{T: App(fs.name, fs.ret, as...), Typ: fs.typ}
 	case "old":
 		argn(1)
 		if e.old == nil {
